@@ -274,11 +274,15 @@ def candidates(typename):
         "net.ipaddress": [("1.2.3.4", True), ("::1", True), (0, True), (2**128 - 1, True), (2**128, False), (-1, False), ("1.2.3.256", False), ("not an ip", False), (None, True),
                           (lambda: FT.net.ipnetwork("10.0.0.0/8"), False), (lambda: FT.net.ipnetwork("::/0"), False), (lambda: FT.net.ipaddress("9.9.9.9"), True), ("10.0.0.0/8", False),
                           # an integer address arriving as an int SUBCLASS (value of an integer field), then wrong kinds that are numerically equal to it
-                          (lambda: FT.uint32(167772161), True), (True, True), (167772161.0, False), (lambda: __import__("decimal").Decimal(167772161), False), (1.0, False)],
+                          (lambda: FT.uint32(167772161), True), (True, True), (167772161.0, False), (lambda: __import__("decimal").Decimal(167772161), False), (1.0, False),
+                          # objects of the standard library's ipaddress module: an address is one, an interface (address/prefix, a SUBCLASS of the address classes) is not
+                          (lambda: __import__("ipaddress").ip_address("9.9.9.9"), True), (lambda: __import__("ipaddress").ip_interface("10.0.0.1/8"), False),
+                          (lambda: __import__("ipaddress").ip_interface("fe80::1/64"), False), (lambda: __import__("ipaddress").ip_network("10.0.0.0/8"), False)],
         "net.ipaddress[]": [([], True), (["1.2.3.4", "::1"], True), (None, True), (lambda: [FT.net.ipnetwork("10.0.0.0/8")], False), (["1.2.3.4", "10.0.0.0/8"], False), (lambda: [FT.net.ipaddress("::2")], True),
-                            (lambda: [FT.uint32(167772161)], True), ([167772161.0], False)],
+                            (lambda: [FT.uint32(167772161)], True), ([167772161.0], False), (lambda: ["1.2.3.4", __import__("ipaddress").ip_interface("10.0.0.1/8")], False)],
         "net.ipnetwork": [("10.0.0.0/8", True), ("::/0", True), ("1.2.3.4", True), (None, True), ("10.0.0.1/8", False), ("garbage", False), (lambda: FT.net.ipnetwork("192.168.0.0/16"), True),
-                          (lambda: FT.uint32(167772161), True), (167772161.0, False)],
+                          (lambda: FT.uint32(167772161), True), (167772161.0, False), (lambda: __import__("ipaddress").ip_interface("10.0.0.1/8"), False),
+                          (lambda: __import__("ipaddress").ip_network("10.0.0.0/8"), True)],
         "datetime": [(lambda: _dt.datetime(2020, 1, 1), True), (lambda: _dt.datetime(2020, 1, 1, tzinfo=utc), True), ("2020-01-01T00:00:00", True), (0, True), ("garbage", False), (None, True)],
         "string[]": [([], True), (["a", "b"], True), (None, True), (["a", b"\xff"], True), (("t",), True)],
         "uint16[]": [([], True), ([0, 0xFFFF], True), ([1, 0x10000], False), ([-1], False), (None, True), (lambda: [FT.uint32(70000)], False), (lambda: [FT.uint16(3)], True)],
@@ -322,11 +326,11 @@ def valid(typename, value):
     if typename == "net.ipaddress":
         import ipaddress as _ipa
 
-        return type(value).__name__ == "ipaddress" and isinstance(value.val, (_ipa.IPv4Address, _ipa.IPv6Address))
+        return type(value).__name__ == "ipaddress" and type(value.val) in (_ipa.IPv4Address, _ipa.IPv6Address)
     if typename == "net.ipnetwork":
         import ipaddress as _ipa
 
-        return type(value).__name__ == "ipnetwork" and isinstance(value.val, (_ipa.IPv4Network, _ipa.IPv6Network))
+        return type(value).__name__ == "ipnetwork" and type(value.val) in (_ipa.IPv4Network, _ipa.IPv6Network)
     if typename == "digest":
         if not isinstance(value, FT.digest):
             return False
